@@ -782,6 +782,14 @@ func adj(inTime time.Time, cv *v1proto.ColumnValue, outTime time.Time) *v1proto.
 func (c *VirtualTable) Begin(ctx context.Context) error {
 	dbg("BEGIN\n")
 	var err error
+	if c.S3Options.ReadOnly {
+		// SQLite begins a transaction on a virtual table only for a
+		// statement that writes it. Refusing here refuses every such
+		// statement, also one that would match no row, and keeps no
+		// snapshot that a later ROLLBACK (or nothing at all: xSync is
+		// skipped for read-only tables) would have to deal with.
+		return kv.ErrReadOnly
+	}
 	if c.txStart != nil {
 		return errors.New("transaction already in progress")
 	}
